@@ -7,7 +7,7 @@ ops (durations in ms; the model runs in µs)
   `start min= done=` | `reply iv= mi=` | `fail ri=` | `fcancel` | `need v=` | `complete` | `close`
 observations
   `ann ev=<e> nw=<n> gap=<µs> cancelled=<0|1>` | `waiting` | `idle status=<s>` | `stuck status=<s>` |
-  `closed` | `no-call` | `not-started`
+  `closed has=<0|1>` (first close; `HasAnnounced`) | `closed` | `no-call` | `not-started`
 
 The EVENT SEQUENCE is compared exactly.  Times are never compared: the implementation's `gap`
 (difference of two `Stats().LastAnnounce` values, i.e. the very quantity `a.time - a.prevAt` of the
@@ -39,6 +39,7 @@ structure DS where
   implAnns : Nat := 0
   implCompleted : Nat := 0
   doneAtStart : Bool := false
+  implReplied : Bool := false
   tags : List String := []
 
 def addTag (d : DS) (t : String) : DS := if d.tags.contains t then d else { d with tags := t :: d.tags }
@@ -141,6 +142,7 @@ def step (d : DS) (op implObs : String) : DS × String × List String :=
     match opn with
     | "reply" =>
       if !d.outstanding then (d, "no-call", dv) else
+      let d := { d with implReplied := d.implReplied || implObs ≠ "no-call" }
       let (d1, _) := feed d d.clk (.response (ms toks "iv") (ms toks "mi"))
       let d1 := addTag { d1 with outstanding := false } (if ms toks "iv" ≤ 0 then "branch:reply-no-interval" else "branch:reply-interval")
       let d1 := if ms toks "iv" ≤ 0 then addTag d1 "nontrivial" else d1
@@ -180,7 +182,11 @@ def step (d : DS) (op implObs : String) : DS × String × List String :=
       | [] => (d1, "model-no-completed", dv)
     | "close" =>
       let (d1, _) := feed d d.clk .close
-      ({ d1 with outstanding := false }, "closed", dv)
+      -- oracle: HasAnnounced (the stop filter's input) only if the implementation's tracker replied
+      let implHas := kvBool (words implObs) "has"
+      let v := if implHas ∧ !d.implReplied then ["C15 has-announced-without-reply"] else []
+      (addTag { d1 with outstanding := false } (if d1.s.hasAnnounced then "branch:close-announced" else "branch:close-unannounced"),
+        s!"closed has={boolStr d1.s.hasAnnounced}", dv ++ v)
     | _ => (d, "bad-op", dv)
   | none => (d, "bad-op", dv)
 
